@@ -18,7 +18,7 @@ TECH = {
     "C05": "RF-DOM guard dominance on output cursors and slicer calls + RF-INIT constructor completeness + RF-DEP provenance",
     "C06": "RF-TAB writer/reader table agreement (mux vs demux data units) + RF-DOM on rejected frames",
     "C07": "RF-PURE no static-state writes + RF-IVL capacity intervals + RF-DOM cursor guards",
-    "C09": "RF-IVL interval analysis of XDS buffer subscripts + RF-DOM checksum/parity dominance, both implementations cross-checked",
+    "C09": "RF-IVL interval abstract interpretation of XDS buffer/table subscripts and assertion reachability with field invariants + RF-CORR current-packet invariant (typestate, must-pass-through) + RF-DOM checksum/parity/routing dominance, both implementations",
     "C10": "RF-PAIR reference typestate + RF-DOM free-only-at-zero + RF-CORR coupled counters",
     "C11": "RF-DOM cursor patch before free + RF-TYPESTATE no use after callback + RF-WHO single writer",
     "C12": "RF-NOWRITE failure leaves outputs untouched (path-sensitive typestate) + RF-NEG decode-error taint + RF-BITS bit-provenance abstract evaluation of the VPS/DVB-PDC encoders against their decoders",
